@@ -339,6 +339,22 @@ def run(ctx):
             if path not in shapes:
                 ctx.bad(R_key, "%s|no-fix-key" % path.split("::")[-1], "-", "no (key + pos) ^ size expression found", "FIX_KEY files cannot be decrypted through this entry point")
 
+    # 3a'. every writer that can set FIX_KEY derives the adjusted key (not only the builder)
+    for path in ("modification::MutableArchive::prepare_file_data", "builder::ArchiveBuilder::write_file"):
+        f = fns.get(M + path)
+        if f is None:
+            continue
+        sets_fix = any(x.get("k") in ("assignop", "assign") and "FLAG_FIX_KEY" in hirq.render(x["r"]) for x in hirq.walk(f.hir["body"]))
+        if not sets_fix:
+            continue
+        ctx.saw_fn(f)
+        formula = any(True for _x, _ln in hirq.inline_local_calls(f.hir["body"], local_fns, lambda n_: n_.get("k") == "bin" and n_["op"] == "^" and "wrapping_add" in hirq.render(n_), depth=1, skip=re.compile(r"::crypto::|::compression::")))
+        key = "%s|sets-fix-key-without-adjusted-key" % path.split("::")[-1]
+        if formula:
+            ctx.ok(R_key, {"fn": path, "sets_FIX_KEY": True, "derives_adjusted_key": True})
+        else:
+            ctx.bad(R_key, key, f.where, "this writer can store FLAG_FIX_KEY but contains no (key + position) ^ size derivation", "the file is encrypted with the plain name key while every reader derives the adjusted one: it decrypts to garbage")
+
     # 3b. sibling readers agree on the un-normalised position operand (absolute vs archive-relative)
     posx = {}
     for path in ("archive::Archive::read_file", "archive::Archive::read_file_by_indices", "archive::Archive::read_patch_file_raw"):
